@@ -12,6 +12,24 @@ CHECKS = {
         note="Trusted: z3; symx interpreter and its models of int/bytes/str builtins, re (sre-parser based matcher) and random "
         "(nondeterministic), each validated against CPython on every run; BeaconConfig.from_bytes replaced by a call recorder.",
         ref="§4 C20"),
+    "C15": dict(
+        text="iter_find_needle: for every haystack (<=8/12 fully symbolic bytes), needle (1..3 / 1..4,7 symbolic bytes), read-buffer size "
+        "1..5,8 / 1..9, start position and search limit, the reported offsets are proved to be exactly the true occurrences (ascending, "
+        "unique, inside the searched region, complete up to the limit). ArtifactKit scanner: for every file of <=18/26 symbolic bytes "
+        "the reported hits are exactly the offsets satisfying pos+16 == u32(header) with size/key/hints/payload fields proved "
+        "byte-exact. Holds within these sizes only.",
+        note="Trusted: z3; symx interpreter; BytesIO model (validated against io.BytesIO on random op sequences each run); the read "
+        "buffer size is a parameter of the io namespace seen by utils (real value 8192 not explored with symbolic content).",
+        ref="§4 C15"),
+    "C09": dict(
+        text="For every plaintext (<=9/13 symbolic bytes), nonce, stub and every history of <=2 (selected 3/4) read/seek/tell operations "
+        "with symbolic sizes and offsets, each step of the real XorEncodedFile is proved equal to the semantics of io.BytesIO(plaintext) "
+        "(bytes returned, tell(), seek() return value). Detection: PE scaffolds behind stubs with marker and/or size field are located "
+        "at the end of the stub for every nonce; every file of <=10/12 symbolic bytes is rejected with ValueError.",
+        note="Trusted: z3; symx; BytesIO and cstruct-reader models; validity predicate of the detection harness: the size relation and "
+        "the marker designate a single candidate offset; pe.find_mz_offset is cut to None for files < 88 bytes, justified by lemma "
+        "obligations discharged in the same run.",
+        ref="§4 C09"),
 }
 
 NA = {}
